@@ -1,7 +1,7 @@
 #!/bin/bash
 # usage: confirm_seeded.sh <Cxx> <A|B>   -- confirms a sub-agent's seeded change in its scratch worktree /tmp/wt/<Cxx>
 # (compiles + existing tests pass with the change; demo fails with it and passes without it), then stores it in /verif/seeded/.
-id=$1; x=$2; base=${WT:-/tmp/wt}; wt=$base/$id; m=$wt/mutation_$x
+id=$1; x=$2; wbase=${WT:-/tmp/wt}; wt=$wbase/$id; m=$wt/mutation_$x
 export CARGO_NET_OFFLINE=true CARGO_TERM_COLOR=never
 cd "$wt" || exit 2
 git checkout -q -- . ; rm -f miniz_oxide/tests/demo_*.rs tests/demo_*.rs
@@ -11,11 +11,11 @@ if [ $capi = 1 ]; then dst=tests/demo_$x.rs; pdir=$wt; else dst=miniz_oxide/test
 feat=""; grep -q "block_boundary\|BlockBoundary\|serde" "$m/demo.rs" && [ $capi = 0 ] && feat="--features block-boundary,serde"
 # without the change: demo passes
 cp "$m/demo.rs" "$dst"
-(cd $pdir && cargo test --offline --test demo_$x $feat) >$base/$id.$x.base.log 2>&1; base=$?
+(cd $pdir && cargo test --offline --test demo_$x $feat) >$wbase/$id.$x.base.log 2>&1; base=$?
 git apply "$m/patch.diff" || { echo "patch does not apply"; exit 2; }
-(cd $pdir && cargo test --offline --test demo_$x $feat) >$base/$id.$x.mut.log 2>&1; mut=$?
+(cd $pdir && cargo test --offline --test demo_$x $feat) >$wbase/$id.$x.mut.log 2>&1; mut=$?
 rm -f "$dst"
-cargo test --offline --workspace --no-fail-fast >$base/$id.$x.suite.log 2>&1; suite=$?
+cargo test --offline --workspace --no-fail-fast >$wbase/$id.$x.suite.log 2>&1; suite=$?
 git checkout -q -- .
 echo "$id/$x: demo without change rc=$base (want 0); demo with change rc=$mut (want != 0); existing suite with change rc=$suite (want 0)"
 if [ $base = 0 ] && [ $mut != 0 ] && [ $suite = 0 ]; then
@@ -30,5 +30,5 @@ json.dump(m,open(sys.argv[2],'w'),indent=1)
 PY
   echo "CONFIRMED -> $d"
 else
-  echo "NOT CONFIRMED (see $base/$id.$x.*.log)"
+  echo "NOT CONFIRMED (see $wbase/$id.$x.*.log)"
 fi
